@@ -24,7 +24,11 @@ package kvql
 //@   ensures[C15] table: prec == specPrec(t)
 //
 // Parser cursor primitives: p.tok is the token at p.pos - 1, or nil at the end of input.
-//@ define wfParser(p *Parser) Bool = p != nil && 0 <= p.pos && p.pos <= p.numToks && p.numToks == len(p.toks) && (forall i Int :: 0 <= i && i < len(p.toks) ==> p.toks[i] != nil)
+//@ define wfParser(p *Parser) Bool = p != nil && 0 <= p.pos && p.pos <= p.numToks && p.numToks == len(p.toks) && (forall i Int :: 0 <= i && i < len(p.toks) ==> p.toks[i] != nil) && (p.tok != nil ==> p.pos >= 1 && p.tok == p.toks[p.pos - 1])
+//
+// A position is reportable when it is -1 (end of input), 0, or the start of one of the tokens.
+//@ define tokenPos(p *Parser, x int) Bool = x == -1 || x == 0 || (exists i Int :: 0 <= i && i < len(p.toks) && p.toks[i].Pos == x)
+//@ define errAtToken(p *Parser, err error) Bool = err != nil && is(err, *SyntaxError) ==> tokenPos(p, as(err, *SyntaxError).Pos)
 //
 //@ func (p *Parser) next() (tok *Token)
 //@   props C15
@@ -42,7 +46,8 @@ package kvql
 //@   ensures[C15] range: prec == LowestPrec || (1 <= prec && prec <= 5)
 //
 //@ func (p *Parser) expect(tok *Token) (err error)
-//@   props C15
+//@   props C15 C17
+//@   ensures[C17] errpos: errAtToken(p, err)
 //@   requires wfParser(p) && tok != nil
 //@   assigns p.tok, p.pos
 //@   ensures[C15] ok: err == nil ==> old(p.tok) != nil && old(p.tok).Tp == tok.Tp && (old(p.pos) < p.numToks ==> p.pos == old(p.pos) + 1 && p.tok == p.toks[old(p.pos)]) && (old(p.pos) >= p.numToks ==> p.pos == old(p.pos) && p.tok == nil)
@@ -54,6 +59,7 @@ package kvql
 //@   assigns p.nestLev
 //@   ensures p.nestLev == old(p.nestLev) + 1
 //@   ensures (err == nil) == (p.nestLev <= 100000)
+//@   ensures[C17] plain: err != nil ==> !is(err, *SyntaxError)
 //
 //@ func (p *Parser) decNestLev()
 //@   requires p != nil
@@ -97,7 +103,8 @@ package kvql
 //@ define curPrec(p *Parser) Int = ite(p.tok == nil, 0, specPrec(p.tok))
 //
 //@ func (p *Parser) parseExpr() (ret Expression, err error)
-//@   props C15
+//@   props C15 C17
+//@   ensures[C17] errpos: errAtToken(p, err)
 //@   requires wfParser(p)
 //@   assigns p.tok, p.pos, p.nestLev, p.exprLev
 //@   ensures[C15] ok: err == nil ==> ret != nil && fresh(ret) && lvl(ret) >= 1 && curPrec(p) < 1
@@ -105,7 +112,8 @@ package kvql
 //@   ensures[C15] wf: wfParser(p) && p.pos >= old(p.pos)
 //
 //@ func (p *Parser) parseBinaryExpr(x Expression, prec1 int) (ret Expression, err error)
-//@   props C15
+//@   props C15 C17
+//@   ensures[C17] errpos: errAtToken(p, err)
 //@   requires wfParser(p) && x == nil && 1 <= prec1 && prec1 <= 6
 //@   assigns p.tok, p.pos, p.nestLev, p.exprLev
 //@   ensures[C15] ok: err == nil ==> ret != nil && fresh(ret) && lvl(ret) >= prec1 && curPrec(p) < prec1
@@ -122,7 +130,8 @@ package kvql
 //@     atend set lvl(x) := ite(as(x, *BinaryOpExpr).Op == In && is(as(x, *BinaryOpExpr).Right, *ListExpr), 6, opPrec(as(x, *BinaryOpExpr).Op))
 //
 //@ func (p *Parser) parseUnaryExpr() (ret Expression, err error)
-//@   props C15
+//@   props C15 C17
+//@   ensures[C17] errpos: errAtToken(p, err)
 //@   requires wfParser(p)
 //@   assigns p.tok, p.pos, p.nestLev, p.exprLev
 //@   ensures[C15] ok: err == nil ==> ret != nil && fresh(ret) && lvl(ret) == 6
@@ -131,7 +140,8 @@ package kvql
 //@   atreturn set lvl(ret) := ite(err == nil, 6, lvl(ret))
 //
 //@ func (p *Parser) parsePrimaryExpr(x Expression) (ret Expression, err error)
-//@   props C15
+//@   props C15 C17
+//@   ensures[C17] errpos: errAtToken(p, err)
 //@   requires wfParser(p) && x == nil && p.tok != nil
 //@   assigns p.tok, p.pos, p.nestLev, p.exprLev
 //@   ensures[C15] ok: err == nil ==> ret != nil && fresh(ret) && lvl(ret) == 6
@@ -142,7 +152,8 @@ package kvql
 //@     invariant x != nil && fresh(x) && lvl(x) == 6
 //
 //@ func (p *Parser) parseOperand() (ret Expression, err error)
-//@   props C15
+//@   props C15 C17
+//@   ensures[C17] errpos: errAtToken(p, err)
 //@   requires wfParser(p) && p.tok != nil
 //@   assigns p.tok, p.pos, p.nestLev, p.exprLev
 //@   ensures[C15] ok: err == nil ==> ret != nil && fresh(ret) && lvl(ret) == 6
@@ -151,7 +162,8 @@ package kvql
 //@   atreturn set lvl(ret) := ite(err == nil, 6, lvl(ret))
 //
 //@ func (p *Parser) parseFuncCall(fun Expression) (ret Expression, err error)
-//@   props C15
+//@   props C15 C17
+//@   ensures[C17] errpos: errAtToken(p, err)
 //@   requires wfParser(p) && fun != nil
 //@   assigns p.tok, p.pos, p.nestLev, p.exprLev
 //@   ensures[C15] ok: err == nil ==> ret != nil && fresh(ret) && lvl(ret) == 6
@@ -162,8 +174,9 @@ package kvql
 //@     invariant wfParser(p) && p.pos >= old(p.pos)
 //
 //@ func (p *Parser) parseFieldAccess(pos int, left Expression) (ret Expression, err error)
-//@   props C15
-//@   requires wfParser(p) && left != nil
+//@   props C15 C17
+//@   ensures[C17] errpos: errAtToken(p, err)
+//@   requires wfParser(p) && left != nil && tokenPos(p, pos)
 //@   assigns p.tok, p.pos, p.nestLev, p.exprLev
 //@   ensures[C15] ok: err == nil ==> ret != nil && fresh(ret) && lvl(ret) == 6
 //@   ensures[C15] fail: err != nil ==> ret == nil
@@ -173,7 +186,8 @@ package kvql
 //@     invariant wfParser(p) && p.pos >= old(p.pos)
 //
 //@ func (p *Parser) parseList(pos int) (ret Expression, err error)
-//@   props C15
+//@   props C15 C17
+//@   ensures[C17] errpos: errAtToken(p, err)
 //@   requires wfParser(p)
 //@   assigns p.tok, p.pos, p.nestLev, p.exprLev
 //@   ensures[C15] ok: err == nil ==> ret != nil && fresh(ret) && lvl(ret) == 6 && is(ret, *ListExpr)
@@ -186,7 +200,8 @@ package kvql
 // BETWEEN's right-hand side `lower and upper`: both bounds bind more tightly than the
 // comparison level (so the `and` between them is not taken for the conjunction).
 //@ func (p *Parser) parseBetween(pos int, oprec int) (ret Expression, err error)
-//@   props C15
+//@   props C15 C17
+//@   ensures[C17] errpos: errAtToken(p, err)
 //@   requires wfParser(p) && 2 <= oprec && oprec <= 6
 //@   assigns p.tok, p.pos, p.nestLev, p.exprLev
 //@   ensures[C15] ok: err == nil ==> ret != nil && fresh(ret) && lvl(ret) == 6 && is(ret, *ListExpr) && curPrec(p) < oprec
